@@ -138,12 +138,13 @@ def gen(depth, names, in_body, allow_ws=True):
     if depth == 0 or r < 0.25:
         return ("t", rng.choice(TEXTS if allow_ws else ["x", "yz", "1", "w"]))
     if in_body and r < 0.45:
-        return ("param", rng.choice(["1", "2", "k", " k ", "n m"]), gen(depth - 1, names, in_body) if rng.random() < 0.5 else None)
+        return ("param", rng.choice(["1", "2", "k", " k ", "n m", "n  m", "n\tm", " n \n m "]),
+                gen(depth - 1, names, in_body) if rng.random() < 0.5 else None)
     if r < 0.75 and names:
         name = rng.choice(names + ["nosuch"])
         args = []
         for _ in range(rng.choice([0, 1, 2, 3])):
-            key = rng.choice([None, None, "k", " k ", "2", "n  m", "1"])
+            key = rng.choice([None, None, "k", " k ", "2", "n  m", "1", "n m", "n\tm"])
             args.append((key, gen(depth - 1, names, in_body)))
         return ("call", name, args)
     if r < 0.82:
